@@ -5,12 +5,14 @@ import (
 	"fmt"
 	"hash"
 	"math/big"
+	"sync/atomic"
 
 	"github.com/free5gc/ike/eap"
 	"github.com/free5gc/ike/message"
 	"github.com/free5gc/ike/security"
 	"github.com/free5gc/ike/security/dh"
 	"github.com/free5gc/ike/security/encr"
+	"github.com/free5gc/ike/security/esn"
 	"github.com/free5gc/ike/security/integ"
 	"github.com/free5gc/ike/security/prf"
 
@@ -125,6 +127,10 @@ func c07Derive(k *core.Case) {
 	if err != nil {
 		k.Violate("derive-error", "derive-error: "+classifyErr(err), errStr(err), w)
 		return
+	}
+	if k.Index%2 == 0 {
+		pokeAccessors(key) // the application logs the new SA (String(), accessors) before using it
+		k.Count("sa_logged_before_use", 1)
 	}
 	want := ref.DeriveIKE(p, s, nonce, shared, spii, spir)
 	if bad := cmpKeys(key, want); bad != "" {
@@ -312,6 +318,10 @@ func c07TwoParty(k *core.Case) {
 			k.Violate("error", "initiator-derive-error", err.Error(), w)
 			return
 		}
+		if k.Index%2 == 1 {
+			pokeAccessors(ini)
+			pokeAccessors(resp)
+		}
 		want := ref.IKEKeys{D: resp.SK_d, Ai: resp.SK_ai, Ar: resp.SK_ar, Ei: resp.SK_ei, Er: resp.SK_er, Pi: resp.SK_pi, Pr: resp.SK_pr}
 		if bad := cmpKeys(ini, want); bad != "" {
 			k.Violate("mismatch", "two-party-keys-differ", "initiator and responder derived different keys: "+bad, w)
@@ -365,7 +375,7 @@ func c07(c *core.Ctx) {
 	c.Info("assumptions", "reference HMAC/prf+ in /verif/harness/ref; lengths table typed from RFC 7296/4868/2404/2403")
 	c.Family("derive", c.N(54*100, 54*100000), c07Derive)
 	c.Family("two-party", c.N(162, 30000), c07TwoParty)
-	c.Require("offers_prepared_from_returned_transforms_before", "two_party_runs", "two_party_shared_secret_with_leading_zeros", "held_sa_keys_rechecked", "same_object_keyed_twice")
+	c.Require("sa_logged_before_use", "offers_prepared_from_returned_transforms_before", "two_party_runs", "two_party_shared_secret_with_leading_zeros", "held_sa_keys_rechecked", "same_object_keyed_twice")
 }
 
 // ---------------------------------------------------------------------------
@@ -373,10 +383,22 @@ func c07(c *core.Ctx) {
 
 var childIntegLen = []int{0, 16, 20, 32}
 
+// newChild: the fields a derivation must not depend on (SPI, ESN, PFS group) cycle through a small pool, so that SPIs
+// are reused across derivations with different nonces, as they are over the life of a gateway.
+var childSeq uint32
+
 func newChild(e, i int) *security.ChildSAKey {
 	ck := &security.ChildSAKey{EncrKInfo: encr.StrToKType(libsa.EncrNames[[]int{16, 24, 32}[e]])}
 	if i > 0 {
 		ck.IntegKInfo = integ.StrToKType(libsa.IntegNames[i-1])
+	}
+	n := atomic.AddUint32(&childSeq, 1)
+	ck.SPI = []uint32{0, 1, 0xc0ffee01, 0xffffffff, 0x80000000, 7}[n%6]
+	if n%3 == 0 {
+		ck.EsnInfo, _ = esn.StrToType([]string{"ESN_DISABLE", "ESN_ENABLE"}[n/3%2])
+	}
+	if n%5 == 0 {
+		ck.DhInfo = dh.StrToType(libsa.DhNames[n/5%2])
 	}
 	return ck
 }
@@ -476,6 +498,12 @@ func c08History(k *core.Case) {
 				raw.K.Ei, raw.K.Er = append([]byte{}, long.SK_ei...), append([]byte{}, long.SK_er...)
 				raw.K.Pi, raw.K.Pr = append([]byte{}, long.SK_pi...), append([]byte{}, long.SK_pr...)
 				k.Count("ike_sa_rekeyed_in_history", 1)
+			}
+		}
+		if k.R.Chance(1, 6) {
+			pokeAccessors(long)
+			for _, h := range heldChildren[maxI(0, len(heldChildren)-3):] {
+				pokeAccessors(h.ck)
 			}
 		}
 		e, i := k.R.Intn(3), k.R.Intn(4)
